@@ -46,7 +46,7 @@ PROPS = 'EdbVerif/Props/C07.lean'
 REQUIRED = [
     'EdbVerif.C07.C07_decision', 'EdbVerif.C07.C07_filter', 'EdbVerif.C07.C07_plan_nobypass',
     'EdbVerif.C07.C07_select_nobypass', 'EdbVerif.C07.C07_terminates', 'EdbVerif.C07.C07_plan_partial',
-    'EdbVerif.C07.C07_scope_is_subtyping',
+    'EdbVerif.C07.C07_scope_is_subtyping', 'EdbVerif.C07.C07_registration_independent_of_conditions',
     'EdbVerif.C07.C07_plan_exact_counterexample_overlap',
     'EdbVerif.C07.C07_plan_exact_counterexample_redundant_base',
 ]
@@ -1120,6 +1120,48 @@ def policy_inheritance_violations(sch, type_names):
     return bad
 
 
+def run_corpus(ctx, env, irast, pgast, pgc, cast) -> int:
+    """corpus/C07/*.json: minimised witnesses of defects that were fixed in /repo.  Hard oracle: for
+    every query, every `protected` type has a type_rewrites entry and its table is read only inside
+    a CTE (never in the statement proper)."""
+    import glob
+    import os
+    n = 0
+    for fn in sorted(glob.glob(os.path.join(core.VERIF, 'corpus', 'C07', '*.json'))):
+        w = json.load(open(fn))
+        name = os.path.basename(fn)[:-5]
+        try:
+            sch = env.load_schema(w['sdl'], modname='default')
+        except Exception as e:
+            ctx.fail(f'corpus:{name}:schema', f'corpus schema no longer loads: {type(e).__name__}: {e}',
+                     {'file': fn}, no_input=True)
+            continue
+        prot = {sch.get(f'default::{t}').id: t for t in w['protected']}
+        for q in w['must_be_filtered']:
+            n += 1
+            try:
+                ir = env.compile_to_ir(sch, q)
+                res = pgc.compile_ir_to_sql_tree(ir, output_format=pgc.OutputFormat.NATIVE)
+            except Exception as e:
+                ctx.fail(f'corpus:{name}:{q}', f'corpus query no longer compiles: {type(e).__name__}: {e}',
+                         {'file': fn, 'sdl': w['sdl'], 'query': q})
+                continue
+            bad = []
+            for tid, tn in prot.items():
+                if not any(t == tid for (t, _incl) in ir.type_rewrites):
+                    bad.append(f'no type_rewrites entry for {tn}')
+            units = sql_units(res.ast, pgast, cast)
+            for uname, u in units.items():
+                for rel, _g, _cp in u['reads']:
+                    ref = rel.type_or_ptr_ref
+                    if isinstance(ref, irast.TypeRef) and ref.real_material_type.id in prot and uname == 'MAIN':
+                        bad.append(f'table of {prot[ref.real_material_type.id]} read in the statement proper')
+            for b in sorted(set(bad)):
+                ctx.fail(f'corpus:{name}:{q}', f'regression of a fixed defect ({w.get("fixed_by")}): {b}',
+                         {'file': fn, 'sdl': w['sdl'], 'query': q, 'root_cause': w.get('root_cause')})
+    return n
+
+
 SAME_NAME_SDL = '''
 global g0 -> bool;
 global g1 -> bool;
@@ -1175,6 +1217,10 @@ def run(ctx: core.Ctx):
     rng = ctx.rng
     ctx.log('bridge ready', env.std_info())
 
+    # ------------------------------------------------ corpus: past defects, replayed first
+    n_corpus = run_corpus(ctx, env, irast, pgast, pgc, cast)
+    ctx.log(f'corpus: {n_corpus} queries of past defects re-checked')
+
     # ------------------------------------------------------------- level 1
     lines, expect_real = [], []
     l1 = []
@@ -1205,7 +1251,7 @@ def run(ctx: core.Ctx):
                 cases.append((d['case'], d.get('queries')))
     else:
         cases = [(w, None) for w in witness_cases()]
-        for _ in range(ctx.budget(18, 300)):
+        for _ in range(ctx.budget(15, 300)):
             cases.append((gen_hierarchy(rng), None))
     nq = ctx.budget(7, 12)
     vals_all = valuations()
@@ -1214,17 +1260,13 @@ def run(ctx: core.Ctx):
 
     hist = {'shape': {}, 'entry': {'none': 0, 'filter': 0, 'union': 0}, 'paths': {}, 'placement': {},
             'kinds': {}}
-    stats = {'hierarchies': 0, 'schema_errors': 0, 'queries': 0, 'query_compile_errors': 0,
+    stats = {'hierarchies': 0, 'schema_errors': 0, 'schema_crashes': 0, 'queries': 0, 'query_compile_errors': 0,
              'sql_units': 0, 'sql_rewrite_ctes': 0, 'sql_raw_reads': 0, 'filters_evaluated': 0,
              'plan_evals': 0, 'wf_checked': 0, 'known_class_hits': {}}
     distinct = set()
     samples = []
     pending = []       # per hierarchy: data needed once the model has answered
     class_reported = {}
-
-    TYPEOF_BEFORE = {'typeof-alias-before', 'typeof-cast-alias-before', 'typeof-introspect-alias-before',
-                     'typeof-global-before', 'typeof-salias-before', 'typeof-sglobal-before',
-                     'typeof-link-before', 'typeof-type-before', 'typeof-introspect-in-shape'}
 
     def report_plan(kind, cause, key_tail, what, detail):
         k = f'plan:{kind}:{cause}'
@@ -1291,7 +1333,6 @@ def run(ctx: core.Ctx):
             queries += qs
         entries_all = None
         evaluator = None
-        case_infix = ''
         for (qtext, expect, path) in queries:
             stats['queries'] += 1
             hist['paths'][path] = hist['paths'].get(path, 0) + 1
@@ -1311,54 +1352,37 @@ def run(ctx: core.Ctx):
             if path == 'all-types':
                 entries_all = entries
                 evaluator = IREval(ir.globals, irast)
-                # root cause A (typegen `typeof` branch rebinding env.type_rewrites): a policy whose
-                # expression goes through `typeof` loses the rewrite of its type (and of whatever
-                # rewrite was being built at that moment).  Evidence independent of the model: a type
-                # with policies has no rewrite at all although the query selects it.
-                if any(p.get('tof') for p in all_pols(c)):
-                    lost_types = [t for t in range(N) if rs.protected(t) and (t, False) not in entries]
-                    if lost_types:
-                        case_infix = 'typeof-in-policy:'
-                        stats['known_class_hits']['typeof:policy-rewrite-lost'] = \
-                            stats['known_class_hits'].get('typeof:policy-rewrite-lost', 0) + 1
-                        ks = class_reported.setdefault('typeof:policy-rewrite-lost', set())
-                        if len(ks) < 2:
-                            ks.add(tag)
-                            ctx.fail(f'typeof:policy-rewrite-lost:{tag}',
-                                     'a policy expression containing `typeof` makes try_type_rewrite lose the '
-                                     f'rewrite: no type_rewrites entry for {[rs.names[t] for t in lost_types]} '
-                                     f'(`select {rs.names[lost_types[0]]}` reads the table without any policy)',
-                                     {'case': c, 'queries': [[qtext, expect, path]], 'sdl': sdl,
-                                      'lost': [rs.names[t] for t in lost_types]})
+                # independent of the model: a type with policies that the query selects must have a
+                # type_rewrites entry (filter or union).  (This is how the two `typeof` defects fixed by
+                # 6c16588 showed: the rewrite of the type was silently lost.)
+                lost_types = [t for t in range(N) if rs.protected(t) and (t, False) not in entries]
+                if lost_types:
+                    ctx.fail(f'plan:rewrite-lost:{tag}',
+                             f'no type_rewrites entry for {[rs.names[t] for t in lost_types]} although they have '
+                             f'access policies (`select {rs.names[lost_types[0]]}` reads the table without any '
+                             f'policy)', {'case': c, 'queries': [[qtext, expect, path]], 'sdl': sdl,
+                                          'lost': [rs.names[t] for t in lost_types]})
             probs, st = audit_sql(res.ast, ir, rs, entries, expect, pgast, cast, irast)
             stats['sql_units'] += st['units']
             stats['sql_rewrite_ctes'] += st['rewrite_ctes']
             stats['sql_raw_reads'] += st['raw_reads']
-            # root cause B (same branch): a schema alias / computed global first compiled inside a
-            # `typeof` operand stays cached while the rewrites made for it are discarded
-            q_infix = case_infix or ('typeof-view-cache:' if path in TYPEOF_BEFORE else '')
             for (cls, pb) in probs:
-                k = f'sql:{cls}:{q_infix}' if q_infix else f'sql:{cls}'
-                k = k.rstrip(':')
+                k = f'sql:{cls}'
                 stats['known_class_hits'][k] = stats['known_class_hits'].get(k, 0) + 1
                 ks = class_reported.setdefault(k, set())
-                if len(ks) < 2 or (cls != 'raw-read-compound-type' and not q_infix):
+                if len(ks) < 2 or cls != 'raw-read-compound-type':
                     ks.add(f'{path}:{tag}')
                     ctx.fail(f'{k}:{path}:{tag}', f'SQL audit [{path}] {qtext!r}: {pb}',
                              {'case': c, 'queries': [[qtext, expect, path]], 'sdl': sdl})
-            if not case_infix:
-                pending.append(('entries', ci, tag, c, sdl, qtext, path, entries, ir.schema))
+            pending.append(('entries', ci, tag, c, sdl, qtext, path, entries, ir.schema))
             distinct.add((sline, qtext))
             if len(samples) < 4 and path != 'all-types' and rng.random() < 0.05:
                 samples.append({'sdl': sdl, 'query': qtext, 'rewrites': {f'{k}': (v[0] if v[0] != 'union' else v)
                                                                         for k, v in entries.items()}})
         if entries_all is None:
             continue
-        if not case_infix:
-            # (with the rewrite lost there is nothing of try_type_rewrite's result left to compare;
-            # the oracles below still run on what the compiler produced)
-            lines.append(f'S|{sline}|E')
-            expect_real.append(('E', ci, tag, c, sdl, rs, entries_all, evaluator))
+        lines.append(f'S|{sline}|E')
+        expect_real.append(('E', ci, tag, c, sdl, rs, entries_all, evaluator))
         if any(p.get('opaque') for p in all_pols(c)):
             # conditions that read the database (policy-in-policy): shape of the map and the audits only
             stats['opaque_hierarchies'] = stats.get('opaque_hierarchies', 0) + 1
@@ -1417,18 +1441,12 @@ def run(ctx: core.Ctx):
                     detail = {'case': c, 'sdl': sdl, 'query': f'select T{t}' if t < c['n'] else 'select L',
                               'globals': gv, 'objects': [[o[0], rs.names[o[1]], o[2]] for o in objs],
                               'returned': got, 'expected': want}
-                    if bypass and case_infix:
-                        report_plan('bypass', case_infix.rstrip(':'), f'{tag}:{t}',
-                                    f'real rewrite plan for select {rs.names[t]} returns objects the policies '
-                                    f'hide (types {sorted({rs.names[tyof[x]] for x in bypass})})', detail)
-                    elif bypass:
+                    if bypass:
                         ctx.fail(f'plan:bypass:{tag}:{t}',
                                  f'real rewrite plan for select {rs.names[t]} returns objects the policies hide '
                                  f'(types {sorted({rs.names[tyof[x]] for x in bypass})})', detail)
                     causes = classify_plan_failure(rs, entries_all, t, {tyof[x] for x in missing},
                                                    {tyof[x] for x in dups})
-                    if case_infix:
-                        continue       # everything else in such a hierarchy follows from the lost rewrite
                     if dups:
                         cause = 'redundant-base-duplicates' if 'redundant-base-duplicates' in causes else 'other'
                         report_plan('dup', cause, f'{tag}:{t}',
@@ -1441,9 +1459,8 @@ def run(ctx: core.Ctx):
                                     f'(types {sorted({rs.names[tyof[x]] for x in missing})})', detail)
             if got is None:
                 break
-            if not case_infix:
-                lines.append(f'S|{sline}|V|{dbline}')
-                expect_real.append(('V', ci, tag, c, sdl, rs, real_sel, gv))
+            lines.append(f'S|{sline}|V|{dbline}')
+            expect_real.append(('V', ci, tag, c, sdl, rs, real_sel, gv))
         if ci % 10 == 9:
             ctx.log(f'{ci + 1}/{len(cases)} hierarchies, {stats["queries"]} queries compiled')
 
@@ -1610,7 +1627,7 @@ def run(ctx: core.Ctx):
                 'pointers, an alias and a computed global) x the all-types query + sampled access-path queries; '
                 'distinct = distinct (schema data line, query text)',
         'samples': samples[:3] + [lines[0] if lines else ''],
-        'level1_calls': n_l1,
+        'level1_calls': n_l1, 'corpus_queries': n_corpus,
         'hierarchies': stats['hierarchies'], 'queries_compiled': stats['queries'],
         'histograms': hist, 'stats': stats,
         'disagreements_model_vs_impl': n_dis,
